@@ -101,6 +101,15 @@ func c02Graph(c *c02Case) *gen.Graph {
 			g.Connect(a, e, nil)
 			continue
 		}
+		if c.Shape == "badcond" && i == 1 {
+			// the only flow out of the first start event carries a condition that cannot be evaluated: its token
+			// ends at the start event (an error trace), having fired it all the same
+			z := g.Add(gen.Task, "z1", "")
+			e := g.Add(gen.End, "end1", "")
+			g.Connect(s, z, &gen.Cond{Kind: "fail"})
+			g.Connect(z, e, nil)
+			continue
+		}
 		if c.Shape == "short" && i == 1 {
 			e := g.Add(gen.End, "end1", "")
 			g.Connect(s, e, nil)
@@ -121,9 +130,9 @@ func c02Graph(c *c02Case) *gen.Graph {
 func c02Cases(tier string, seed uint64) []fw.Case {
 	var cs []fw.Case
 	for starts := 1; starts <= 3; starts++ {
-		shapes := []string{"ind", "join", "short", "forkend", "sub", "skipbnd"}
+		shapes := []string{"ind", "join", "short", "forkend", "sub", "skipbnd", "badcond"}
 		if starts == 1 {
-			shapes = []string{"ind", "short", "forkend", "sub", "skipbnd"}
+			shapes = []string{"ind", "short", "forkend", "sub", "skipbnd", "badcond"}
 		}
 		for _, shape := range shapes {
 			modes := []string{"all", "each"}
